@@ -14,6 +14,7 @@ import json, os, re, shutil, subprocess, sys, threading, queue, glob
 
 args = sys.argv[1:]
 RND, WORKERS, KIND, IDS = "4", 3, "seeded", []
+ROOT = "/tmp/evalw"
 i = 0
 while i < len(args):
     if args[i] == "--round":
@@ -22,9 +23,10 @@ while i < len(args):
         WORKERS = int(args[i + 1]); i += 2
     elif args[i] == "--kind":
         KIND = args[i + 1]; i += 2
+    elif args[i] == "--root":
+        ROOT = args[i + 1]; i += 2
     else:
         IDS.append(args[i]); i += 1
-ROOT = "/tmp/evalw"
 PROPS = ["C%02d" % k for k in range(1, 18)]
 lock = threading.Lock()
 wt_locks = {}
